@@ -397,6 +397,19 @@ def resolution_doc(rng):
     return ". ".join(parts) + "."
 
 
+COLLISION_KINDS = ["fullA", "fullA2", "fullAdup", "fullB", "fullD", "fullE", "fullMc", "fullDon", "supraA", "supraB", "supraEdu",
+                   "supraRoe", "supraDon", "supraBoard", "shortEdu", "shortSmith", "shortA_named", "refA", "refA2", "refAlpha",
+                   "idValid", "idNoPin"]
+
+
+def collision_sequences(rng, n):
+    """Random sequences of length 5-9 over the kinds whose party names collide (the same name in several
+    cases, repeated full citations of one case in between): memoised or cached answers of the name lookups
+    show on such lists, which are too long for the exhaustive focus alphabets."""
+    for _ in range(n):
+        yield tuple(rng.choice(COLLISION_KINDS) for _ in range(rng.randint(5, 9)))
+
+
 def long_lists(protos, rng, n):
     """A few very long lists (more than 300 citations): bookkeeping that is keyed on the length of the
     whole list, caps and caches only show there."""
